@@ -110,6 +110,12 @@ func (r *Result) Sample(v any) {
 // Floor fails the run as broken when a rule matched fewer instances than
 // were confirmed by hand (a rule that matches nothing passes vacuously).
 func (r *Result) Floor(name string, min int) {
+	// The floors written in props.go are about 80 % of the counts confirmed on
+	// the pinned tree; the check fails below half of that. A refactoring that
+	// merges duplicated code into a helper can halve a count without the rule
+	// having lost sight of anything, whereas a rule that has stopped matching
+	// drops to (nearly) zero.
+	min = (min + 1) / 2
 	if r.Counts[name] < min {
 		r.Brokenf("floor: %s matched %d instances, expected at least %d (rule no longer sees the code it was written for)", name, r.Counts[name], min)
 	}
